@@ -55,6 +55,13 @@ def flood_scenarios():
         out.append({"conns": [{"stream": [{"t": "http", "v": "ok"}], "steps": [{"kind": "data", "items": 1, "dt": 0}, {"kind": "silence"}]}],
                     "connect_kwargs": {"poll": poll, "ping_rate": 0, "ping_timeout": None, "close_timeout": ct, "auto_pong": True},
                     "react": {"poll#%d" % k: [["close"]] for k in range(60)}, "max_waits": 60})
+    # the server answers one or two pings (or sends unsolicited Pongs) and then goes silent: the ping time-out still ends the connection
+    for cfg in (TIMERS, PINGTO, {"poll": 2, "ping_rate": 3, "ping_timeout": 7, "close_timeout": 0, "auto_pong": True}):
+        for npong in (1, 2):
+            pongs = [{"t": "f", "op": 10, "fin": 1, "pl": [k]} for k in range(npong)]
+            out.append({"conns": [{"stream": [{"t": "http", "v": "ok"}] + pongs,
+                                   "steps": [{"kind": "data", "items": 1, "dt": 0}] + [{"kind": "data", "items": 1, "dt": 2} for _ in pongs] + [{"kind": "silence"}]}],
+                        "connect_kwargs": dict(cfg), "react": {}, "max_waits": 60})
     return out
 
 
